@@ -1028,6 +1028,14 @@ func (r *rewriter) collect(n ast.Node, write bool, out *[]fieldAccess) {
 		if loc, ok := r.fieldSel(x); ok && r.addressable(x) && !r.localOnly(x) {
 			*out = append(*out, fieldAccess{expr: x, write: write, loc: loc})
 		}
+		inner := x.X
+		if pe, ok := inner.(*ast.ParenExpr); ok {
+			inner = pe.X
+		}
+		if se, ok := inner.(*ast.StarExpr); ok {
+			r.collect(se.X, false, out) // (*p).f reads the field only, not the whole struct
+			return
+		}
 		r.collect(x.X, false, out)
 		return
 	case *ast.IndexExpr:
@@ -1133,6 +1141,26 @@ func (r *rewriter) collect(n ast.Node, write bool, out *[]fieldAccess) {
 		r.collect(x.X, write, out)
 		return
 	case *ast.StarExpr:
+		// *p used as a value (returned, assigned, passed) copies the whole struct: a read of every field
+		if !write {
+			if t := r.typeOf(x); t != nil {
+				if st, ok := t.Underlying().(*types.Struct); ok {
+					if named, isNamed := t.(*types.Named); isNamed && r.ownPkg(named.Obj().Pkg()) && !hasCall(x.X) {
+						tn := named.Obj().Pkg().Name() + "." + named.Obj().Name()
+						for i := 0; i < st.NumFields(); i++ {
+							f := st.Field(i)
+							if syncType(f.Type()) {
+								continue
+							}
+							if !f.Exported() && f.Pkg() != r.pkg.Types {
+								continue
+							}
+							*out = append(*out, fieldAccess{expr: &ast.SelectorExpr{X: x.X, Sel: ast.NewIdent(f.Name())}, write: false, loc: tn + "." + f.Name() + "(struct copy)"})
+						}
+					}
+				}
+			}
+		}
 		r.collect(x.X, false, out)
 		return
 	case *ast.SliceExpr:
